@@ -151,10 +151,30 @@ fn op_status(line: &str, args: &[SExp]) -> CaseResult {
         Some(c) => c as u16,
         None => return bad(line, "status"),
     };
-    let h = IppHeader::new(IppVersion::v1_1(), c, 1);
+    // optional: protocol version and request-id of the header the status word sits in
+    let ver = args.get(1).and_then(|a| a.atom()).and_then(hexnum).map(|v| v as u16).unwrap_or(0x0101);
+    let id = args.get(2).and_then(|a| a.atom()).and_then(hexnum).map(|v| v as u32).unwrap_or(1);
+    let h = IppHeader::new(IppVersion(ver), c, id);
     let s = h.status_code();
     let result = format!("{:?} {}", s, s.is_success() as u8);
-    let oracle = crate::registry::check_status(c, &format!("{:?}", s), s.is_success());
+    let mut oracle = crate::registry::check_status(c, &format!("{:?}", s), s.is_success());
+    if oracle.is_none() && args.len() > 1 {
+        // the same word in a header that came out of the parser
+        let mut wire = vec![];
+        wire.extend_from_slice(&ver.to_be_bytes());
+        wire.extend_from_slice(&c.to_be_bytes());
+        wire.extend_from_slice(&id.to_be_bytes());
+        wire.push(3);
+        match parse_flat(&wire) {
+            Ok((ph, _, _)) => {
+                let ps = ph.status_code();
+                if format!("{:?} {}", ps, ps.is_success() as u8) != result {
+                    oracle = Some(format!("status 0x{:04x} decodes to {:?} on a constructed header but to {:?} on the parsed header (version {:04x}, request-id {})", c, s, ps, ver, id));
+                }
+            }
+            Err(e) => oracle = Some(format!("a bare header with status 0x{:04x}, version {:04x} is not parsed: {}", c, ver, show_parse_err(&e))),
+        }
+    }
     CaseResult { line: line.into(), result, oracle, class: if s.is_success() { "success".into() } else { "not-success".into() } }
 }
 
